@@ -179,12 +179,17 @@ func newOffsetResolver(dt telem.DataType, ins alamos.Instrumentation) *offsetRes
 
 // byteOffset returns the byte offset of sampleIdx within iter's current domain.
 // If sampleIdx is past the domain's total sample count, returns the end-of-domain
-// byte offset.
+// byte offset. A negative sampleIdx resolves to the start of the domain.
 func (r *offsetResolver) byteOffset(
 	ctx context.Context,
 	iter *domain.Iterator,
 	sampleIdx int64,
 ) (telem.Size, error) {
+	// The lower bound of an inexact distance approximation is -1 for a position before
+	// the first sample of a domain; that is "the start of the domain", not an index.
+	if sampleIdx < 0 {
+		sampleIdx = 0
+	}
 	if r.cache == nil {
 		total := r.density.SampleCount(iter.Size())
 		if sampleIdx >= total {
